@@ -691,6 +691,8 @@ fn macro_workload() {
 
 fn run_macro<C: Collect + Send + Sync + 'static>(env: &Env, stack: C) -> Value {
     let build = env.take();
+    let hint = stack.max_level_hint().map(rank_of_filter);
+    let _ = env.take();
     let d = Dispatch::new(stack);
     let reg = env.take();
     tracing_core::dispatch::with_default(&d, macro_workload);
@@ -709,7 +711,7 @@ fn run_macro<C: Collect + Send + Sync + 'static>(env: &Env, stack: C) -> Value {
         canon_entries(&ids, &mut one);
         *e = one[0].clone();
     }
-    json!({"build": ent(&build), "reg": ent(&reg), "ops": [{"log": ent(&log), "res": ["unit"]}]})
+    json!({"build": ent(&build), "reg": ent(&reg), "ops": [{"log": ent(&log), "res": ["hint", hint]}]})
 }
 
 macro_rules! mshapes {
@@ -749,6 +751,10 @@ fn macro_case(name: &str, env: &Env, behs: &[Arc<Beh>]) -> Option<Value> {
         "cbox" => Box::new(mk().with(l(1))),
         "carc" => Arc::new(mk().with(l(1))),
         "cboxdyn" => Box::new(mk().with(l(1))) as Box<dyn Collect + Send + Sync>,
+        "pair_none_o" => mk().with(l(1).and_then(None::<RecLayer>)),
+        "pair_none_i" => mk().with(Subscribe::and_then(None::<RecLayer>, l(1))),
+        "box_none" => mk().with(l(1)).with(Box::new(None::<RecLayer>)),
+        "reload_none" => mk().with(l(1)).with(reload::Subscriber::new(None::<RecLayer>).0),
     }
 }
 
